@@ -294,8 +294,8 @@ func (n *Net) newPair(addr string) (*SimConn, *SimConn) {
 	b := &SimConn{ID: s.nconns + 1, sim: s, in: ab, out: ba, faults: cc.FaultsB,
 		local: simAddr(addr), remote: simAddr("client:" + itoa(idx))}
 	a.peer, b.peer = b, a
-	a.log = make([]CallEntry, 0, 4096)
-	b.log = make([]CallEntry, 0, 4096)
+	a.log = arenaSlice[CallEntry](4096)
+	b.log = arenaSlice[CallEntry](4096)
 	s.conns[s.nconns] = a
 	s.conns[s.nconns+1] = b
 	s.nconns += 2
@@ -321,7 +321,7 @@ func newPipe(capacity int, sink bool) *pipe {
 	p := &pipe{sink: sink}
 	p.ring = theArena.alloc(capacity)
 	p.tap = theArena.alloc(tapMax)
-	p.chunks = make([]tapChunk, 0, 8192)
+	p.chunks = arenaSlice[tapChunk](8192)
 	return p
 }
 
